@@ -19,7 +19,7 @@ FUNCTIONS = [
     "jsonargparse._util.Path(mode='fc'), change_to_path_dir",
 ]
 
-FAULTS = ["none", "invalid", "unserialisable", "invalid-in-subfile-section", "json-unserialisable"]
+FAULTS = ["none", "invalid", "unserialisable", "invalid-in-subfile-section", "json-unserialisable", "inf-in-json-subfile"]
 
 
 def a_function(x: int = 0) -> int:
@@ -41,6 +41,9 @@ def _parser():
     p.add_argument("--g", type=Inner, default=Inner())
     p.add_argument("--x", type=Base, default=None, enable_path=True)
     p.add_argument("--any", type=Any, default=None)
+    from ..fixtures import Limits
+
+    p.add_argument("--h", type=Limits, default=Limits())  # loaded from a *.json sub-file (written back as json whatever the main format)
     return p
 
 
@@ -70,13 +73,15 @@ def _once(overwrite, multifile, target_exists, sub_exists, from_subfiles, fault,
             f.write("k: 11\nr: 2.5\n")
         with open(os.path.join(src, "x.yaml"), "w") as f:
             f.write("class_path: vf.fixtures.Sub1\ninit_args:\n  w: 4\n")
+        with open(os.path.join(src, "h.json"), "w") as f:
+            f.write('{"lim": 2.5, "n": 1}')
         with open(os.path.join(src, "main.yaml"), "w") as f:
-            f.write("a: 3\ng: g.yaml\nx: x.yaml\n")
+            f.write("a: 3\ng: g.yaml\nx: x.yaml\nh: h.json\n")
         p = _parser()
         if from_subfiles:
             cfg = p.parse_path(os.path.join(src, "main.yaml"))
         else:
-            cfg = p.parse_object({"a": 3, "g": {"k": 11, "r": 2.5}, "x": {"class_path": "vf.fixtures.Sub1", "init_args": {"w": 4}}})
+            cfg = p.parse_object({"a": 3, "g": {"k": 11, "r": 2.5}, "x": {"class_path": "vf.fixtures.Sub1", "init_args": {"w": 4}}, "h": {"lim": 2.5, "n": 1}})
         expected = strip_meta(cfg).clone()
         if fault == "invalid":
             cfg["a"] = bad_value
@@ -84,6 +89,10 @@ def _once(overwrite, multifile, target_exists, sub_exists, from_subfiles, fault,
             cfg["f"] = lambda z: z
         elif fault == "invalid-in-subfile-section":
             cfg["g.k"] = "not-an-int"
+        elif fault == "inf-in-json-subfile":
+            inf = type(cfg["h.lim"])(float("inf"))  # a valid value (PositiveFloat) that yaml and json both write; the json sub-file holds it
+            cfg["h.lim"] = inf
+            expected["h.lim"] = inf
         elif fault == "json-unserialisable":
             cfg["any"] = {1, 2}  # a set is written by the yaml dumper but not by json
         target = os.path.join(out, "main." + ("json" if fmt == "json" else "yaml"))
@@ -102,7 +111,7 @@ def _once(overwrite, multifile, target_exists, sub_exists, from_subfiles, fault,
         after = _snapshot(out)
         has_metas = from_subfiles and multifile
         must_refuse = (not overwrite) and (target_exists or (has_metas and sub_exists))
-        must_fail = fault != "none" and not (fault == "json-unserialisable" and fmt == "yaml")
+        must_fail = fault not in ("none", "inf-in-json-subfile") and not (fault == "json-unserialisable" and fmt == "yaml")
         if fault == "json-unserialisable" and fmt == "yaml":
             expected = None  # a yaml !!set tag is not read back by the safe loader: only 'no failure, nothing destroyed' is demanded
         if (must_refuse or must_fail) and raised is None:
